@@ -1,9 +1,152 @@
-import Driver.Util
-/-! Driver for C15: not built yet. -/
+import Driver.TransportCommon
+/-! Driver for C15: model correspondence (`Driver.TC.modelStep`) + the property's specification
+evaluated on the implementation's own outputs:
+* a message that is not a retransmission carries a counter strictly greater than all earlier ones
+  of that session;
+* a retransmission carries the counter of its original and — when the builder is idempotent, i.e.
+  the op text is the same — exactly the original's header output (counter, piggy-backed ack, session id);
+* session ids handed out by the allocator differ from the ids of live sessions, and stay unique
+  once installed;
+* on every session no two live exchanges share (exchange id, role). -/
 namespace Driver.C15
+open Driver.TC
 
-def run : IO UInt32 := do
-  IO.eprintln "C15: driver not built yet"
-  return 2
+structure Orig where
+  uid : Nat
+  slot : Nat
+  ctr : Nat
+  op : String
+  out : String
+  /-- a reliable message without ack flag was received on that exchange while this one was pending
+  (peer violating the one-outstanding-message discipline): identity of the piggy-backed ack is not demanded -/
+  tainted : Bool := false
+
+structure OSt where
+  /-- per session uid: largest counter sent so far -/
+  sentMax : List (Nat × Nat) := []
+  origs : List Orig := []
+  pendingSids : List Nat := []
+  sidTaint : Bool := false
+  prev : ISnap := {}
+
+structure St where
+  m : MSt := {}
+  o : OSt := {}
+
+def dupBy (f : α → β) [BEq β] : List α → Bool
+  | [] => false
+  | a :: rest => rest.any (fun b => f b == f a) || dupBy f rest
+
+def field (ws : List String) (k : String) : Option String :=
+  match ws.dropWhile (· != k) with
+  | _ :: v :: _ => some v
+  | _ => none
+
+def stillPending (snap : ISnap) (g : Orig) : Bool :=
+  (snap.sess g.uid).any (fun s => (s.slots.getD g.slot none).any (fun x => x.rt.any (fun p => p.1 == g.ctr)))
+
+/-- the specification on the implementation's outputs; `none` = fine -/
+def oracle (o : OSt) (w : List String) (res : String) (snap : ISnap) : OSt × Option String :=
+  let n (i : Nat) : Nat := ((w.getD i "").toNat?).getD 0
+  let rw := words res
+  let (o, verdict) : OSt × Option String :=
+    match w.getD 0 "" with
+    | "tx" =>
+      match field rw "ctr", field rw "rt" with
+      | some cs, some rts =>
+        let c := cs.toNat?.getD 0
+        let uid := n 1
+        let slot := (w.getD 2 "-").toNat?
+        if rts = "0" then
+          let bad := o.sentMax.any (fun p => p.1 == uid && c ≤ p.2)
+          let o1 := { o with sentMax := (uid, c) :: o.sentMax.filter (·.1 != uid) }
+          let o2 := match slot with
+            | some sl =>
+              -- became a pending original iff the implementation now shows a pending retransmission for it
+              let pend := (snap.sess uid).any (fun s => ((s.slots.getD sl none).any (fun x => x.rt.any (·.1 == c))))
+              if pend then { o1 with origs := { uid := uid, slot := sl, ctr := c, op := " ".intercalate w, out := res } ::
+                                o1.origs.filter (fun g => !(g.uid == uid && g.slot == sl)) }
+              else o1
+            | none => o1
+          (o2, if bad then some s!"new message reuses or goes below an earlier counter of session {uid}: ctr={c}" else none)
+        else
+          match slot with
+          | none => (o, some "retransmission flagged for a message outside any exchange")
+          | some sl =>
+            match o.origs.find? (fun g => g.uid == uid && g.slot == sl) with
+            | none => (o, some s!"retransmission without a pending original on session {uid} slot {sl}")
+            | some g =>
+              if g.ctr != c then (o, some s!"retransmission counter {c} differs from the original's {g.ctr}")
+              else if g.op = " ".intercalate w && !g.tainted && res.replace " rt 1 " " rt 0 " != g.out then
+                (o, some s!"retransmission differs from the original: '{res}' vs '{g.out}'")
+              else (o, none)
+      | _, _ =>
+        -- a send on a live exchange must not panic (a retransmission whose counter does not match the
+        -- remembered one trips `RetransEntry::pre_send`'s consistency check)
+        let live := match (w.getD 2 "-").toNat? with
+          | some sl => (o.prev.sess (n 1)).any (fun s => (s.slots.getD sl none).isSome)
+          | none => false
+        (o, if res = "panic" && live then some "sending on a live exchange panicked" else none)
+    | "rx" =>
+      -- reliable, no ack flag, addressed to an exchange id with a pending original: taint (see `Orig.tainted`)
+      if w.getD 5 "-" = "-" && w.getD 6 "" = "r" then
+        let uid := n 1
+        let ex := n 3
+        let hit (g : Orig) : Bool := g.uid == uid &&
+          (o.prev.sess uid).any (fun s => (s.slots.getD g.slot none).any (fun x => x.id == ex))
+        ({ o with origs := o.origs.map (fun g => if hit g then { g with tainted := true } else g) }, none)
+      else (o, none)
+    | "setctr" => ({ o with sentMax := o.sentMax.filter (·.1 != n 1) }, none)
+    | "sid" =>
+      let v := res.toNat?.getD 0
+      let live := o.prev.sessions.map (·.lsid)
+      ({ o with pendingSids := v :: o.pendingSids },
+        if v = 0 then some "session id 0 allocated"
+        else if live.contains v then some s!"allocated session id {v} is the id of a live session"
+        else none)
+    | "setsid" => ({ o with pendingSids := [] }, none)
+    | "lsid" | "upd" =>
+      let v := n 2
+      if res != "ok" then (o, none)
+      else if o.pendingSids.contains v then ({ o with pendingSids := o.pendingSids.erase v }, none)
+      else ({ o with sidTaint := true }, none)
+    | "init" =>
+      match rw with
+      | ["x", xs, _] =>
+        let x := xs.toNat?.getD 0
+        let clash := (o.prev.sess (n 1)).any (fun s => s.live.any (fun e => !e.isResponder && e.id == x))
+        (o, if clash then some s!"initiate returned exchange id {x} which a live initiator exchange of session {n 1} already has" else none)
+      | _ => (o, none)
+    | _ => (o, none)
+  -- invariants on every snapshot
+  let exDup := snap.sessions.find? (fun s => dupBy (fun (e : ISlot) => (e.id, e.isResponder)) s.live)
+  let sidDup := !o.sidTaint && dupBy (·.lsid) (snap.sessions.filter (fun s => s.lsid != 0))
+  -- forget originals whose retransmission is no longer pending
+  let o := { o with origs := o.origs.filter (stillPending snap), prev := snap }
+  let verdict := match verdict with
+    | some v => some v
+    | none =>
+      match exDup with
+      | some s => some s!"two live exchanges of session {s.uid} share exchange id and role"
+      | none => if sidDup then some "two live sessions share a local session id" else none
+  (o, verdict)
+
+def step (st : St) (line : String) : St × String :=
+  let (op, out) := splitArrow line
+  match words op with
+  | "case" :: _ :: kind => ({ m := newCase kind }, "case")
+  | w =>
+    let (res, snapS) := splitHash out
+    let (m', dis) := modelStep st.m op out
+    let (o', ora) := if st.m.isMrp then (st.o, none) else oracle st.o w res (parseSnap snapS)
+    let st' : St := { m := m', o := o' }
+    match ora with
+    | some why => (st', s!"ORA {why}")
+    | none =>
+      match dis with
+      | some mo => (st', s!"DIS {mo}")
+      | none => (st', "ok")
+
+def run : IO UInt32 := Driver.runLoop ({} : St) step
 
 end Driver.C15
